@@ -131,6 +131,20 @@ def random_roundtrips(rng, n_events, rep, depth_extremes=False):
                     if rng.random() < 0.4:      # integer targets for decimals (also inside Option<_> over unions of several branches)
                         cmds[-1]["decimal_mode"] = rng.choice(["u64", "i64", "u128", "i128"])
             sis.append(si + 1)
+    # Option<integer> targets over unions of null and SEVERAL branches one of which is a decimal (the deserializer wraps the branch there)
+    from .. import scopes
+    P, F = scopes.prim, scopes.fixed
+    for t in (scopes.un(P("null"), P("bytes", lt="decimal", prec=29, scale=0), P("string")),
+              scopes.un(P("long"), F("D16m", 16, lt="decimal", prec=29, scale=0), P("null")),
+              scopes.un(P("null"), P("bytes", lt="big-decimal"), P("boolean"), P("double"))):
+        nodes = scopes.flatten(t)["nodes"]
+        scope.append({"sid": f"decm{len(scope)}", "nodes": nodes})
+        for x in (0, -1, 255, (1 << 63) - 1, 1 << 63, -(1 << 63) - 1, (1 << 64) + 1234, -(1 << 95)):
+            v = {"t": "un", "b": 1, "x": {"t": "dec", "v": pyavro.be16(x), "s": 0}}
+            for dm in ("u64", "i64", "u128", "i128"):
+                cmds.append({"op": "ser_de", "id": len(cmds), "schema": {"nodes": nodes}, "pres": codec.canon_pres(nodes, 1, v, "named"),
+                             "reader": rng.choice([{"kind": "slice"}, {"kind": "chunks", "sched": [1]}]), "suffix": [], "hints": "alt", "shape": v, "decimal_mode": dm})
+                sis.append(len(scope))
     obs = common.run_harness(cmds)
     events = [rt_event(si, c, o) for si, c, o in zip(sis, cmds, obs)]
     scope_path = codec.write_scope(scope, "c01-rscope")
